@@ -844,6 +844,8 @@ def _hoist_arg_block(stmt, out):
     """`f(a, &{ S..; t }, b)?;` with an inlined block as an argument and only simple (effect-free) arguments before it:
     S.. is evaluated right after those and before anything else of the call, so `S..; f(a, &t, b)?;` is the same"""
     e = stmt.get("e") if stmt.get("k") == "Expr" else stmt.get("init")
+    if isinstance(e, dict) and e.get("k") == "Assign" and tir.place(e.get("l") or {}) is not None:
+        e = e["r"]          # `slot = f({ S..; t })`: the value is evaluated before the (effect-free) place
     while isinstance(e, dict) and e.get("k") == "Try":
         e = e["e"]
     if not isinstance(e, dict) or e.get("k") not in ("Call", "MethodCall"):
@@ -871,6 +873,15 @@ def _hoist_arg_block(stmt, out):
 
 def flatten_blocks(root):
     """splice an inlined block that stands as a statement (or as a `let` initialiser) into the enclosing block"""
+    # a unit match arm `pat => slot = f(helper(x)?)` whose expression holds an inlined block becomes a block arm, so that
+    # the helper's statements can be spliced in front of it
+    for m in list(tir.walk(root)):
+        if m.get("k") != "Match":
+            continue
+        for a in m["arms"]:
+            b = a.get("body")
+            if isinstance(b, dict) and b.get("k") != "Block" and b.get("ty") == "()" and any(x.get("k") == "Block" and x.get("inlined") and x.get("stmts") for x in tir.walk(b)):
+                a["body"] = {"k": "Block", "ty": "()", "sp": b.get("sp"), "stmts": [{"k": "Expr", "e": b, "semi": True}], "tail": None, "canon": "arm-block"}
     for blk in list(tir.walk(root)):
         if blk.get("k") != "Block" or not blk.get("stmts") and not (blk.get("tail") or {}).get("inlined"):
             continue
@@ -980,6 +991,18 @@ def pure_expr(e, depth=0):
     if k == "Call" and (e.get("path") or "") in ("game::End::size", "game::port_occupancy", "std::cmp::min", "std::cmp::max"):
         return all(pure_expr(a, depth + 1) for a in e.get("args", []))
     return False
+
+
+def total_expr(e):
+    """a pure expression that cannot panic: no indexing, no integer arithmetic, no division"""
+    for x in tir.walk(e):
+        if x.get("k") == "Index":
+            return False
+        if x.get("k") == "Binary" and x.get("op") in ("Add", "Sub", "Mul", "Div", "Rem", "Shl", "Shr"):
+            return False
+        if x.get("k") == "Unary" and x.get("op") == "Neg":
+            return False
+    return True
 
 
 def root_locals(e):
@@ -1113,16 +1136,20 @@ def try_inline_let(root, blk, idx, let, mut_fields, param_tys):
     if total != len(uses) or not uses:
         return False
     init = let["init"]
-    # a use inside a loop or closure is evaluated a different number of times
+    # a use inside a loop or closure is evaluated a different number of times: only an initialiser that is pure *and total*
+    # (cannot panic: no indexing, no arithmetic) may move there — `let gte_2_2 = version.gte(2, 2);` hoisted out of the frame loop
+    in_loop = False
     for si, s, x in uses:
         par = parents_of(s)
         a = par.get(id(x))
         while a is not None:
             if a.get("k") in ("Closure", "Loop", "For"):
-                return False
+                in_loop = True
             a = par.get(id(a))
         if s.get("k") in ("Closure", "Loop", "For"):
-            return False
+            in_loop = True
+    if in_loop and not (pure_expr(init) and total_expr(init)):
+        return False
     ok = False
     if pure_expr(init):
         roots = root_locals(init)
@@ -1154,7 +1181,7 @@ def try_inline_let(root, blk, idx, let, mut_fields, param_tys):
                 stable = True
         if stable and len(uses) <= 12:
             ok = True
-    if not ok and len(uses) == 1 and uses[0][0] == 0:
+    if not ok and len(uses) == 1 and uses[0][0] == 0 and not in_loop:
         # single use in the very next statement, nothing impure evaluated before it
         si, s, x = uses[0]
         before = _pre_order_until(s, x)
@@ -1650,8 +1677,11 @@ def last_return_to_try(root):
 
 # ------------------------------------------------------------------------------------------------ K: new constants
 
+PRIM_SIZE = {"u8": 1, "i8": 1, "bool": 1, "u16": 2, "i16": 2, "u32": 4, "i32": 4, "f32": 4, "u64": 8, "i64": 8, "f64": 8, "usize": 8, "isize": 8, "u128": 16, "i128": 16}
+
+
 def const_int_value(doc, path, bodies, depth=0):
-    """value of an integer constant item built from literals, casts, + - * and other such constants; None otherwise"""
+    """value of an integer constant item built from literals, casts, + - * / %, size_of::<prim>() and other such constants; None otherwise"""
     b = bodies.get(path)
     if b is None or depth > 6:
         return None
@@ -1662,40 +1692,120 @@ def const_int_value(doc, path, bodies, depth=0):
         if k == "Lit" and e.get("lit") == "int":
             return e.get("v")
         if k == "Cast" and e.get("ty") in INT_RANGE:
-            return ev(e["e"])
+            v = ev(e["e"])
+            if v is None:
+                return None
+            lo, hi = INT_RANGE[e["ty"]]
+            return v if lo <= v <= hi else None
         if k == "Unary" and e.get("op") == "Neg":
             v = ev(e["e"])
             return None if v is None else -v
-        if k == "Binary" and e.get("op") in ("Add", "Sub", "Mul"):
+        if k == "Binary" and e.get("op") in ("Add", "Sub", "Mul", "Div", "Rem"):
             l, r = ev(e["l"]), ev(e["r"])
             if l is None or r is None:
                 return None
+            if e["op"] in ("Div", "Rem"):
+                if r <= 0 or l < 0:
+                    return None
+                return l // r if e["op"] == "Div" else l % r
             return l + r if e["op"] == "Add" else (l - r if e["op"] == "Sub" else l * r)
-        if k == "Path" and e.get("res") == "def" and (e.get("dk") or "").startswith("Const"):
+        if k == "Path" and e.get("res") == "def" and "Const" in (e.get("dk") or ""):
             return const_int_value(doc, e.get("path"), bodies, depth + 1)
+        if k == "Call" and (e.get("path") or "") in ("std::mem::size_of", "core::mem::size_of") and not e.get("args") and (e.get("gargs") or [None])[0] in PRIM_SIZE:
+            return PRIM_SIZE[e["gargs"][0]]
+        return None
+    return ev(b["tir"]["value"])
+
+
+def const_expr_value(doc, path, bodies, depth=0):
+    """the defining expression of a constant that is a string literal, or an array / reference of integer-valued elements,
+    with the elements folded to literals; None otherwise"""
+    b = bodies.get(path)
+    if b is None or depth > 6:
+        return None
+
+    def ev(e):
+        e = tir.strip(e)
+        k = e.get("k")
+        if k == "Lit" and e.get("lit") in ("str", "bytestr", "bool", "char"):
+            return copy.deepcopy(e)
+        if k == "AddrOf" and not e.get("mut"):
+            v = ev(e["e"])
+            if v is None:
+                return None
+            o = dict(e)
+            o["e"] = v
+            return o
+        if k == "Array":
+            out = []
+            for x in e.get("elems", []):
+                xs = tir.strip(x)
+                if xs.get("k") == "Lit" and xs.get("lit") == "int":
+                    out.append(copy.deepcopy(xs))
+                    continue
+                if xs.get("k") == "Path" and xs.get("res") == "def" and "Const" in (xs.get("dk") or ""):
+                    v = const_int_value(doc, xs.get("path"), bodies, depth + 1)
+                    if isinstance(v, int):
+                        out.append({"k": "Lit", "ty": xs.get("ty"), "sp": xs.get("sp"), "lit": "int", "v": v})
+                        continue
+                return None
+            o = dict(e)
+            o["elems"] = out
+            return o
+        if k == "Path" and e.get("res") == "def" and "Const" in (e.get("dk") or ""):
+            return const_expr_value(doc, e.get("path"), bodies, depth + 1)
         return None
     return ev(b["tir"]["value"])
 
 
 def inline_new_consts(doc, pinned_consts):
-    """a constant item that does not exist on the pinned tree and has an integer literal value is replaced by that literal at its uses
-    (`const BLOCK: usize = 512;` named for readability)"""
-    bodies = {b["path"]: b for b in doc["bodies"] if b.get("tir") and (b["kind"].startswith("Const") or b["kind"].startswith("Static"))}
+    """a constant item (free or associated) that does not exist on the pinned tree and whose value is an integer constant
+    expression, a string literal or a byte array is replaced by that value at its uses, in expressions and in patterns
+    (`const BLOCK: usize = 512;`, `const PEPPI_JSON: &str = "peppi.json";`, `const MAGIC: [u8; 8] = [..];` named for readability)"""
+    bodies = {}
+    for b in doc["bodies"]:
+        if b.get("tir") and ("Const" in b["kind"] or b["kind"].startswith("Static")):
+            bodies.setdefault(b["path"], b)
     new = {}
-    for c in doc["items"]["consts"]:
-        p = c["path"]
-        if p in pinned_consts or c.get("ty") not in INT_RANGE:
+    newx = {}
+    for p, b in bodies.items():
+        if p in pinned_consts or "Const" not in b["kind"] or p.startswith("<") or "num_enum" in p or "_serde" in p or "::_::" in p or "{" in p:
             continue
-        v = const_int_value(doc, p, bodies)
-        if isinstance(v, int):
-            new[p] = (v, c.get("ty"))
-    if not new:
+        ty = b["tir"]["value"].get("ty")
+        if ty in INT_RANGE:
+            v = const_int_value(doc, p, bodies)
+            if isinstance(v, int):
+                new[p] = (v, ty)
+        else:
+            x = const_expr_value(doc, p, bodies)
+            if x is not None:
+                newx[p] = x
+    if not new and not newx:
         return {}
 
     def f(n):
-        if n.get("k") == "Path" and n.get("res") == "def" and n.get("path") in new and (n.get("dk") or "").startswith("Const"):
-            v, ty = new[n["path"]]
-            return {"k": "Lit", "ty": ty, "sp": n.get("sp"), "lit": "int", "v": v, "canon": "const:" + n["path"].split("::")[-1]}
+        if n.get("k") == "Path" and n.get("res") == "def" and "Const" in (n.get("dk") or ""):
+            if n.get("path") in new:
+                v, ty = new[n["path"]]
+                return {"k": "Lit", "ty": ty, "sp": n.get("sp"), "lit": "int", "v": v, "canon": "const:" + n["path"].split("::")[-1]}
+            if n.get("path") in newx:
+                x = copy.deepcopy(newx[n["path"]])
+                x["sp"] = n.get("sp")
+                x["canon"] = "const:" + n["path"].split("::")[-1]
+                if n.get("aty"):
+                    x["aty"] = n["aty"]
+                return x
+        # arithmetic and casts over an inlined constant fold to the literal the pinned tree spells out (`BLOCK + 4`, `BLOCK as u16`)
+        if n.get("k") == "Cast" and n.get("ty") in INT_RANGE:
+            e = tir.strip(n["e"])
+            if e.get("k") == "Lit" and e.get("lit") == "int" and (e.get("canon") or "").startswith("const:") and INT_RANGE[n["ty"]][0] <= e["v"] <= INT_RANGE[n["ty"]][1]:
+                return {"k": "Lit", "ty": n["ty"], "sp": n.get("sp"), "lit": "int", "v": e["v"], "canon": e["canon"]}
+        if n.get("k") == "Binary" and n.get("op") in ("Add", "Sub", "Mul") and n.get("ty") in INT_RANGE:
+            l, r = tir.strip(n["l"]), tir.strip(n["r"])
+            if l.get("k") == "Lit" and r.get("k") == "Lit" and l.get("lit") == "int" and r.get("lit") == "int" and ((l.get("canon") or "").startswith("const:") or (r.get("canon") or "").startswith("const:")):
+                v = l["v"] + r["v"] if n["op"] == "Add" else (l["v"] - r["v"] if n["op"] == "Sub" else l["v"] * r["v"])
+                if INT_RANGE[n["ty"]][0] <= v <= INT_RANGE[n["ty"]][1]:
+                    return {"k": "Lit", "ty": n["ty"], "sp": n.get("sp"), "lit": "int", "v": v, "canon": l.get("canon") or r.get("canon")}
         return n
     def fix_pat(p):
         """constant patterns (`UBJSON_U8 => ..`) become literal patterns"""
@@ -1710,6 +1820,9 @@ def inline_new_consts(doc, pinned_consts):
         if path in new:
             v, ty = new[path]
             return {"k": "Lit", "ty": ty, "sp": p.get("sp"), "e": {"k": "Lit", "neg": v < 0, "lit": "int", "v": abs(v)}, "canon": "const:" + path.split("::")[-1]}
+        if path in newx and newx[path].get("k") == "Lit":
+            x = newx[path]
+            return {"k": "Lit", "ty": p.get("ty") or x.get("ty"), "sp": p.get("sp"), "e": {"k": "Lit", "neg": False, "lit": x.get("lit"), "v": x.get("v")}, "canon": "const:" + path.split("::")[-1]}
         if k == "Range":
             for key in ("lo", "hi"):
                 e = p.get(key)
@@ -1735,7 +1848,9 @@ def inline_new_consts(doc, pinned_consts):
                         a["pat"] = fix_pat(a["pat"])
                 if n.get("k") in ("Let", "LetCond") and isinstance(n.get("pat"), dict):
                     n["pat"] = fix_pat(n["pat"])
-    return {k: v[0] for k, v in new.items()}
+    out = {k: v[0] for k, v in new.items()}
+    out.update({k: "<%s>" % v.get("k") for k, v in newx.items()})
+    return out
 
 
 # ------------------------------------------------------------------------------------------------ entry point
